@@ -131,8 +131,18 @@ class H(object):
         if k == 'array':
             return B.new_array_type(B.new_pointer_type(self.build(s[1])), s[2])
         if k == 'func':
-            return B.new_function_type(tuple(self.build(a) for a in s[1]), self.build(s[2]),
-                                       s[3])
+            args = []
+            for a in s[1]:
+                if a[0] == 'ptr' and a[1][0] not in ('void', 'func', 'struct') and \
+                        not (a[1][0] == 'array' and a[1][2] is None) and self.rnd.random() < 0.3:
+                    # the same parameter written as an array: it decays to the pointer type,
+                    # so the function type must be the very same object
+                    self.rep.stat('ctor_function_with_array_parameter')
+                    args.append(B.new_array_type(B.new_pointer_type(self.build(a[1])),
+                                                 self.rnd.choice([None, 0, 3, 1002])))
+                else:
+                    args.append(self.build(a))
+            return B.new_function_type(tuple(args), self.build(s[2]), s[3])
         raise ValueError(s)
 
     def key(self, ct):
@@ -190,7 +200,48 @@ class H(object):
     def step(self):
         rnd = self.rnd
         op = rnd.choice(['request', 'request', 'request', 'pair', 'drop', 'drop', 'collect',
-                         'delffi', 'rebuild'])
+                         'delffi', 'rebuild', 'revive'])
+        if op == 'revive' and rnd.random() < 0.5:
+            op = 'request'
+        if op == 'revive':
+            # a user weakref callback that asks for the same type again while the old ctype
+            # is being deallocated; the revived object must stay the canonical one
+            inner = rand_spec(rnd, 2, False, 'item')
+            if inner[0] in ('void', 'func') or (inner[0] == 'array' and inner[2] is None):
+                inner = ('prim', 'int')
+            s = rnd.choice([('array', inner, rnd.randrange(1000, 100000)),
+                            ('ptr', ('array', inner, rnd.randrange(1000, 100000))),
+                            ('ptr', ('func', [('ptr', ('array', inner,
+                                                        rnd.randrange(1000, 100000)))],
+                                     ('prim', 'int'), False))])
+            paths = ['ctor', 'inline0', 'cparser']
+            p0, p1, p2 = rnd.choice(paths), rnd.choice(paths), rnd.choice(paths)
+            revived = []
+            old = self.request(s, p0)
+            wr = weakref.ref(old, lambda r: revived.append(self.request(s, p1)))
+            del old
+            if p0.startswith('inline'):       # the in-line FFI caches its parsed types
+                self.ffis[int(p0[-1])] = None
+            elif p0 == 'cparser':
+                self.cffis[0] = None
+            if wr() is not None:
+                gc.collect()
+                self.rep.stat('revive_needed_gc')
+            self.rep.stat('revive_attempts')
+            if not revived:
+                self.rep.stat('revive_old_type_still_alive')
+                return (op, 'not-dead'), s
+            self.rep.stat('revived_in_weakref_callback')
+            again = self.request(s, p2)
+            self.note(revived[0], s)
+            self.note(again, s)
+            if again is not revived[0]:
+                self.bad('revived-type-not-canonical', '%r re-created (through %s) inside a weakref '
+                         'callback of its dying ctype, then requested again through %s: two live '
+                         'objects %r / %r' % (render(s), p1, p2, revived[0], again))
+            self.held.append((s, again))
+            del wr
+            return (op, p0, p1, p2), s
         if op in ('request', 'pair'):
             s = rand_spec(rnd)
             paths = ['ctor', 'inline0', 'inline1', 'inline2', 'cparser']
